@@ -1,13 +1,16 @@
-import SaphyrModel.Sc.Frames2
+import SaphyrModel.Sc.Assemble
 import SaphyrModel.Props.C02
 import SaphyrModel.Props.C07
 import SaphyrModel.Props.C11
 import SaphyrModel.Props.C18
 /-! # C01 — Parsing always terminates: no panic, abort or hang (component theorems)
 
-`C01_scanner_full` is the scanner part of the property at full strength; it is **not yet proved**
-(the per-function lemmas below are its ingredients: every structural panic site of the scanner is
-guarded by the invariant `InvS`, which each listed function preserves). The parser part is proved
+`C01_scanner_full` is the scanner part of the property at full strength; it is **not yet proved** in
+full. What is proved is `scanner_no_structural_panic`: for every input, back-end and capacity the
+scanner never reaches one of its six structural panic sites (the per-function lemmas below are the
+ingredients: each structural function preserves the invariant `InvS`; `Sc/Assemble.lean` carries
+the invariant through every `fetch_*` function, `fetch_more_tokens`, `next_token` and the run).
+Still open: the look-ahead discipline of the buffered input, and fuel sufficiency. The parser part is proved
 for every token list (C02), the loader part for every well-nested event run (C07), the push loop
 and the decode loop terminate (C11, C18). -/
 namespace SaphyrModel.C01
@@ -38,6 +41,19 @@ theorem value_after_simple_key_safe (sk : SimpleKey) (hp : sk.possible = true) (
     Tr (HeadKey sk) (valueAfterSimpleKey sk m imp) (fun _ => InvS) := valueAfterSimpleKey_pres sk hp m imp
 theorem value_after_complex_key_safe (m : Marker) (imp : Bool) : PresS (valueAfterComplexKey m imp) :=
   valueAfterComplexKey_pres m imp
+
+/-- **No structural panic, for every input.** Whatever the text, the back-end, its capacity and the
+    number of tokens pulled, the scanner model never reaches `indents.pop().unwrap()`,
+    `indents.last().unwrap()`, `simple_keys.last().unwrap()`, `simple_keys.pop().unwrap()`, the
+    `assert!(pos <= old_len)` of `insert_token`, or a negative `token_number - tokens_parsed`. -/
+theorem scanner_no_structural_panic (k : InKind) (cap : Nat) (text : Str) (fuel : Nat) (p : Site)
+    (h : (scanAll fuel (mkSc k cap text) []).2.1 = .panic p) : ¬ StructSite p :=
+  scanAll_no_struct_panic fuel _ [] (mkSc_between k cap text) p h
+
+/-- the statement is not vacuous: the six sites are exactly the ones it excludes -/
+example : StructSite .indentsPopUnwrap ∧ StructSite .insertTokenAssert ∧ StructSite .tokenNumberUnderflow ∧
+    StructSite .simpleKeysLastUnwrap ∧ StructSite .simpleKeysPopUnwrap ∧ StructSite .indentsLastUnwrap := by
+  simp [StructSite]
 
 /-- the initial scanner state after `fetch_stream_start` satisfies the structural invariant's
     indentation and numbering clauses -/
